@@ -205,47 +205,6 @@ def _role_of(attrs: Set[str], ops: Set[str]) -> Optional[int]:
     return None
 
 
-def _mentions_const(expr, value) -> bool:
-    return any(isinstance(n, ast.Constant) and n.value == value and type(n.value) is type(value) for n in walk_self(expr))
-
-
-def _wild_exact_values(roles: _Roles, name: str):
-    """Constants assigned to `name` in the wildcard branch / in the exact
-    branch of its if-chain (idiom: `if <... == '*'>: v = a ... else: v = b`)."""
-    f = roles.f
-    wild, exact = [], []
-    binds = _assignments(f.node, name)
-    if not binds:
-        raise UnknownIdiom('%s: %s is not a local' % (f.qual, name))
-    for stmt, val in binds:
-        if not _is_const_num(val):
-            raise UnknownIdiom('%s: %s is not assigned a numeric constant in %s' % (f.qual, name, short(stmt, 80)))
-        ifs = roles.enclosing_ifs(stmt)
-        if not ifs:
-            raise UnknownIdiom('%s: assignment %s is not inside an if-chain' % (f.qual, short(stmt, 80)))
-        # nearest enclosing `if` that tests the wildcard: its body is the
-        # wildcard case, its else-branch (however deep) the exact case
-        kind = None
-        child = stmt
-        for i in ifs:
-            if _mentions_const(i.test, '*'):
-                if any(child is s or _contains(s, child) for s in i.body):
-                    kind = 'wild'
-                elif any(child is s or _contains(s, child) for s in i.orelse):
-                    kind = 'exact'
-                break
-            child = i
-        if kind == 'wild':
-            wild.append(val.value)
-        elif kind == 'exact':
-            exact.append(val.value)
-        else:
-            raise UnknownIdiom('%s: cannot classify the branch of %s' % (f.qual, short(stmt, 80)))
-    if not wild or not exact:
-        raise UnknownIdiom('%s: %s lacks a wildcard or an exact branch' % (f.qual, name))
-    return wild, exact
-
-
 def _contains(root, node) -> bool:
     return any(n is node for n in ast.walk(root))
 
@@ -832,6 +791,490 @@ def _score_returns(ms: Func) -> Tuple[List[ast.Return], List[ast.Return]]:
     return real, sentinels
 
 
+# --- the type / subtype part of match_score, decided on a finite domain ------
+#
+# Whether the range and the candidate agree in main type / subtype, and what
+# the two leading score components are, is a function of four strings only.
+# However the source spells it (if/elif ladders, early returns, membership
+# tests over tuple displays, conditional expressions), match_score() is
+# INTERPRETED here - by the enumerated statement/expression language below,
+# never by running falcon code - for every combination of
+#     self.main_type, <candidate>.main_type, self.subtype, <candidate>.subtype
+# over {'*', 'a', 'b'} (two distinct concrete tokens and the wildcard: every
+# comparison the language admits is decided by equality of the atoms, so this
+# domain shows every behaviour).  Everything else (parameters, q) evaluates to
+# one opaque value; a branch decided by it is explored both ways.  REQUIRED:
+#   * both sides concrete and different (in either position) -> every path
+#     returns the not-matching sentinel;
+#   * otherwise (a wildcard on EITHER side, or equal tokens) no sentinel return
+#     is decided by the type: a sentinel is only reached behind a branch on the
+#     opaque part (parameter mismatch);
+#   * the component of a real score is smaller in every wildcard cell than in
+#     every exact cell.
+# A cell that differs is a violation naming the cell; anything outside the
+# language is an unknown idiom.
+
+_T_ATOMS = ('*', 'a', 'b')
+_T_ATTRS = ('main_type', 'subtype')
+_TOP = type('_Top', (), {'__repr__': lambda self: '<opaque>'})()
+_TYPE_WITNESS = "quality('text/*', 'text/html') is 0.0 instead of 1.0; a handler registered as 'text/*' no longer resolves " \
+                "Content-Type 'text/csv' (415, or a lower-ranked handler)"
+
+
+def _compatible(x: str, y: str) -> bool:
+    return x == '*' or y == '*' or x == y
+
+
+def _cell_text(cell) -> str:
+    sm, om, ss, os_ = cell
+    return 'range %s/%s, candidate %s/%s' % (sm, ss, om, os_)
+
+
+class _TState:
+    __slots__ = ('env', 'last', 'tests', 'status')
+
+    def __init__(self, env, last=None, tests=(), status='run'):
+        self.env = env            # local name -> value
+        self.last = last          # the decision this point is control-dependent on: ('top'|'conc', test expr, outcome) | None
+        self.tests = tests        # concretely decided tests on the path, in order
+        self.status = status      # 'run' | 'break' | 'continue'
+
+    def fork(self, **kw):
+        s = _TState(self.env, self.last, self.tests, self.status)
+        for k, v in kw.items():
+            setattr(s, k, v)
+        return s
+
+
+class _TOutcome:
+    __slots__ = ('ret', 'kind', 'env', 'last', 'tests')
+
+    def __init__(self, ret, kind, st: _TState):
+        self.ret, self.kind, self.env, self.last, self.tests = ret, kind, st.env, st.last, st.tests
+
+
+def _always_returns(stmts) -> bool:
+    if not stmts:
+        return False
+    s = stmts[-1]
+    if isinstance(s, (ast.Return, ast.Raise)):
+        return True
+    if isinstance(s, ast.If):
+        return _always_returns(s.body) and _always_returns(s.orelse)
+    return False
+
+
+class _TypeModel:
+    """Interpreter of match_score() over the four type strings.
+
+    statements: if/elif/else; assignments (plain, annotated, augmented, tuple
+    unpacking of a tuple display) to locals; return; for/while over the opaque
+    part (body explored zero times and once, the names it binds are opaque
+    afterwards); break/continue/pass; expression statements.
+    expressions: constants; the four attributes; locals; tuple/list/set
+    displays; == != in / not in (over displays) is / is not < <= > >=;
+    and/or/not; conditional expressions; + - * on numbers; int()/bool();
+    constant subscripts of displays.  Any other expression is opaque when it
+    does not read the type (directly or through a local) and outside the
+    language when it does."""
+
+    MAX_STATES = 256
+
+    def __init__(self, roles: _Roles, other: str):
+        self.roles = roles
+        self.f = roles.f
+        self.other = other
+        self._memo: Dict[int, bool] = {}
+        self.cell = {}
+        self.out: List[_TOutcome] = []
+
+    # -- helpers
+    def reads_type(self, e) -> bool:
+        k = id(e)
+        if k not in self._memo:
+            try:
+                attrs = self.roles.features(e, control=False)[0]
+            except UnknownIdiom as why:
+                raise _OutOfModel(str(why))
+            self._memo[k] = bool(attrs & set(_T_ATTRS))
+        return self._memo[k]
+
+    def _opaque(self, e):
+        if self.reads_type(e):
+            raise _OutOfModel('%s reads the type in a way outside the modelled language' % short(e, 60))
+        return _TOP
+
+    @staticmethod
+    def _truth(v) -> Optional[bool]:
+        if v is _TOP:
+            return None
+        if isinstance(v, tuple):
+            return len(v) > 0
+        return bool(v)
+
+    def _eq3(self, l, r) -> Optional[bool]:
+        if l is _TOP or r is _TOP:
+            return None
+        if isinstance(l, tuple) and isinstance(r, tuple):
+            if len(l) != len(r):
+                return False
+            res = True
+            for a, b in zip(l, r):
+                t = self._eq3(a, b)
+                if t is False:
+                    return False
+                if t is None:
+                    res = None
+            return res
+        if isinstance(l, tuple) or isinstance(r, tuple):
+            return False
+        return l == r
+
+    def _cmp(self, op, l, r, e) -> Optional[bool]:
+        if isinstance(op, (ast.Eq, ast.NotEq)):
+            t = self._eq3(l, r)
+            return t if t is None or isinstance(op, ast.Eq) else (not t)
+        if isinstance(op, (ast.In, ast.NotIn)):
+            if r is _TOP:
+                return None
+            if not isinstance(r, tuple):
+                raise _OutOfModel('membership test in something that is not a display: %s' % short(e, 60))
+            ts = [self._eq3(l, x) for x in r]
+            t = True if any(x is True for x in ts) else (None if any(x is None for x in ts) else False)
+            return t if t is None or isinstance(op, ast.In) else (not t)
+        if isinstance(op, (ast.Is, ast.IsNot)):
+            if l is _TOP or r is _TOP:
+                return None
+            if not all(x is None or isinstance(x, bool) for x in (l, r)) and not (l is None or r is None):
+                raise _OutOfModel('identity test %s' % short(e, 60))
+            t = l is r
+            return t if isinstance(op, ast.Is) else (not t)
+        fn = _CMP_OPS.get(type(op))
+        if fn is None:
+            raise _OutOfModel('comparison in %s' % short(e, 60))
+        if l is _TOP or r is _TOP:
+            return None
+        if _is_number(l) and _is_number(r):
+            return fn(l, r)
+        raise _OutOfModel('ordering of non-numbers in %s' % short(e, 60))
+
+    # -- expressions
+    def ev(self, e, env, depth=0):
+        if depth > 40:
+            raise _OutOfModel('expression too deep')
+        e = _unwrap_cast(e)
+        d = depth + 1
+        if isinstance(e, ast.Constant):
+            if e.value is None or isinstance(e.value, (str, int, float, bool)):
+                return e.value
+            return _TOP
+        if isinstance(e, ast.Attribute):
+            if e.attr in _T_ATTRS and isinstance(e.value, ast.Name) and e.value.id in ('self', self.other):
+                return self.cell[(e.value.id == 'self', e.attr)]
+            return self._opaque(e)
+        if isinstance(e, ast.Name):
+            if e.id in env:
+                return env[e.id]
+            return self._opaque(e)
+        if isinstance(e, (ast.Tuple, ast.List, ast.Set)):
+            if any(isinstance(x, ast.Starred) for x in e.elts):
+                return self._opaque(e)
+            return tuple(self.ev(x, env, d) for x in e.elts)
+        if isinstance(e, ast.Compare):
+            left = self.ev(e.left, env, d)
+            res: Optional[bool] = True
+            for op, ce in zip(e.ops, e.comparators):
+                right = self.ev(ce, env, d)
+                t = self._cmp(op, left, right, e)
+                if t is False:
+                    return False
+                if t is None:
+                    res = None
+                left = right
+            return _TOP if res is None else True
+        if isinstance(e, ast.BoolOp):
+            is_and = isinstance(e.op, ast.And)
+            opaque = False
+            v = None
+            for x in e.values:
+                v = self.ev(x, env, d)
+                t = self._truth(v)
+                if t is None:
+                    opaque = True
+                elif t != is_and:
+                    return (not is_and) if opaque else v       # decided whatever the opaque operands are
+            return _TOP if opaque else v
+        if isinstance(e, ast.UnaryOp):
+            v = self.ev(e.operand, env, d)
+            if isinstance(e.op, ast.Not):
+                t = self._truth(v)
+                return _TOP if t is None else (not t)
+            if v is _TOP:
+                return _TOP
+            if isinstance(e.op, (ast.USub, ast.UAdd)) and _is_number(v):
+                return -v if isinstance(e.op, ast.USub) else +v
+            raise _OutOfModel('operator in %s' % short(e, 60))
+        if isinstance(e, ast.IfExp):
+            t = self._truth(self.ev(e.test, env, d))
+            if t is not None:
+                return self.ev(e.body if t else e.orelse, env, d)
+            a, b = self.ev(e.body, env, d), self.ev(e.orelse, env, d)
+            return a if (a is not _TOP and b is not _TOP and type(a) is type(b) and a == b) else _TOP
+        if isinstance(e, ast.BinOp):
+            l, r = self.ev(e.left, env, d), self.ev(e.right, env, d)
+            if _is_number(l) and _is_number(r) and isinstance(e.op, (ast.Add, ast.Sub, ast.Mult)):
+                return l + r if isinstance(e.op, ast.Add) else (l - r if isinstance(e.op, ast.Sub) else l * r)
+            if (l is _TOP or _is_number(l)) and (r is _TOP or _is_number(r)):
+                return _TOP
+            return self._opaque_strict(e)
+        if isinstance(e, ast.Subscript):
+            v = self.ev(e.value, env, d) if isinstance(e.value, (ast.Tuple, ast.List, ast.Name)) else _TOP
+            if isinstance(v, tuple) and isinstance(e.slice, ast.Constant) and isinstance(e.slice.value, int) \
+                    and -len(v) <= e.slice.value < len(v):
+                return v[e.slice.value]
+            return self._opaque(e)
+        if isinstance(e, ast.Call):
+            if isinstance(e.func, ast.Name) and e.func.id in ('int', 'bool') and e.func.id not in env and len(e.args) == 1 \
+                    and not e.keywords and not isinstance(e.args[0], ast.Starred):
+                v = self.ev(e.args[0], env, d)
+                if v is _TOP:
+                    return _TOP
+                if e.func.id == 'bool':
+                    return self._truth(v)
+                if _is_number(v):
+                    return int(v)
+                raise _OutOfModel('call %s' % short(e, 60))
+            return self._opaque(e)
+        if isinstance(e, ast.NamedExpr) and isinstance(e.target, ast.Name):
+            v = self.ev(e.value, env, d)
+            env[e.target.id] = v
+            return v
+        return self._opaque(e)
+
+    def _opaque_strict(self, e):
+        """an operator applied to strings / displays of the domain: never opaque"""
+        raise _OutOfModel('operator applied to a type token in %s' % short(e, 60))
+
+    # -- statements
+    def outcomes(self, cell) -> List[_TOutcome]:
+        sm, om, ss, os_ = cell
+        self.cell = {(True, 'main_type'): sm, (False, 'main_type'): om, (True, 'subtype'): ss, (False, 'subtype'): os_}
+        self.out = []
+        end = self._block(self.f.node.body, [_TState({})])
+        if end:
+            raise _OutOfModel('a path leaves match_score without a return')
+        return self.out
+
+    def _block(self, stmts, states: List[_TState]) -> List[_TState]:
+        for s in stmts:
+            nxt: List[_TState] = []
+            for x in states:
+                if x.status != 'run':
+                    nxt.append(x)
+                else:
+                    nxt += self._stmt(s, x)
+            states = nxt
+            if len(states) > self.MAX_STATES:
+                raise _OutOfModel('too many paths')
+        return states
+
+    def _bind(self, target, value, vexpr, env):
+        if isinstance(target, ast.Name):
+            env[target.id] = value
+        elif isinstance(target, (ast.Tuple, ast.List)) and not any(isinstance(t, ast.Starred) for t in target.elts):
+            if isinstance(value, tuple) and len(value) == len(target.elts):
+                for t, v in zip(target.elts, value):
+                    self._bind(t, v, vexpr, env)
+            elif value is _TOP:
+                for t in target.elts:
+                    self._bind(t, _TOP, vexpr, env)
+            else:
+                raise _OutOfModel('unpacking of %s' % short(vexpr, 60))
+        elif value is not _TOP or self.reads_type(vexpr):
+            raise _OutOfModel('a value derived from the type is stored in %s' % short(target, 40))
+
+    def _stmt(self, s, x: _TState) -> List[_TState]:
+        if isinstance(s, ast.If):
+            t = self._truth(self.ev(s.test, x.env))
+            dep = _always_returns(s.body) != _always_returns(s.orelse)
+            outs: List[_TState] = []
+            for truth in ((True, False) if t is None else (t,)):
+                dec = ('top' if t is None else 'conc', s.test, truth)
+                y = x.fork(env=dict(x.env), last=dec, tests=x.tests if t is None else x.tests + ((s.test, truth),))
+                outs += self._block(s.body if truth else s.orelse, [y])
+            if not dep:
+                outs = [o.fork(last=x.last) for o in outs]
+            return outs
+        if isinstance(s, (ast.Assign, ast.AnnAssign)):
+            if s.value is None:
+                return [x]
+            env = dict(x.env)
+            v = self.ev(s.value, env)
+            for t in (s.targets if isinstance(s, ast.Assign) else [s.target]):
+                self._bind(t, v, s.value, env)
+            return [x.fork(env=env)]
+        if isinstance(s, ast.AugAssign):
+            env = dict(x.env)
+            v = self.ev(ast.BinOp(left=ast.Name(id=s.target.id, ctx=ast.Load()), op=s.op, right=s.value), env) \
+                if isinstance(s.target, ast.Name) else _TOP
+            self._bind(s.target, v, s.value, env)
+            return [x.fork(env=env)]
+        if isinstance(s, ast.Return):
+            if s.value is None:
+                raise _OutOfModel('bare return')
+            self.out.append(_TOutcome(s, 'score' if _is_real_score(s.value) else 'sentinel', x))
+            return []
+        if isinstance(s, (ast.For, ast.While)):
+            if isinstance(s, ast.For):
+                if self.ev(s.iter, dict(x.env)) is not _TOP:
+                    raise _OutOfModel('loop over a sequence built from the type: %s' % short(s.iter, 60))
+                head = s.iter
+            else:
+                if self._truth(self.ev(s.test, dict(x.env))) is not None:
+                    raise _OutOfModel('loop condition decided by the type: %s' % short(s.test, 60))
+                head = s.test
+            bound = {n.id for n in ast.walk(s) if isinstance(n, ast.Name) and isinstance(n.ctx, ast.Store)}
+            env = dict(x.env)
+            for n in bound:
+                env[n] = _TOP
+            n_before = len(self.out)
+            body = self._block(s.body, [x.fork(env=env, last=('top', head, True))])
+            returned = len(self.out) > n_before
+            after_last = ('top', head, False) if returned else x.last
+            done = [x.fork(env=dict(x.env))] + [b.fork(status='run') for b in body if b.status != 'break']
+            broke = [b.fork(status='run') for b in body if b.status == 'break']
+            return [o.fork(last=after_last) for o in self._block(s.orelse, done) + broke]
+        if isinstance(s, ast.Break):
+            return [x.fork(status='break')]
+        if isinstance(s, ast.Continue):
+            return [x.fork(status='continue')]
+        if isinstance(s, ast.Pass):
+            return [x]
+        if isinstance(s, ast.Expr):
+            if not isinstance(s.value, ast.Constant):
+                self.ev(s.value, dict(x.env))
+            return [x]
+        raise _OutOfModel('%s statement' % type(s).__name__.lower())
+
+
+def _type_table(run, ms: Func, roles: _Roles, other: str, comp_with_role, lower):
+    """R1 (b)/(d) for the two leading criteria: the REQUIRED table above, cell by cell."""
+    tm = _TypeModel(roles, other)
+    cells = [(sm, om, ss, os_) for sm in _T_ATOMS for om in _T_ATOMS for ss in _T_ATOMS for os_ in _T_ATOMS]
+    try:
+        table = {c: tm.outcomes(c) for c in cells}
+    except _OutOfModel as why:
+        raise UnknownIdiom('match_score: the type / subtype part cannot be evaluated (%s)' % why)
+    if not any(o.kind == 'score' for outs in table.values() for o in outs):
+        raise AnchorError('match_score: no combination of types reaches a real score')
+
+    def comp_value(o: _TOutcome, role: int):
+        e = comp_with_role(o.ret, role)
+        if e is None:
+            return None
+        try:
+            v = tm.ev(e, dict(o.env))
+        except _OutOfModel as why:
+            raise UnknownIdiom('match_score: %s component %s (%s)' % (ROLE_DOC[role], short(e, 40), why))
+        if v is _TOP or not _is_number(v):
+            raise UnknownIdiom('match_score: %s component %s is not decided by the types (%r)' % (ROLE_DOC[role], short(e, 40), v))
+        return v
+
+    def blame(o: _TOutcome, attr: Optional[str]):
+        """the concretely decided test that sent the path here: the decision the return is control-dependent on, else the
+        last decided test on the path that reads this criterion's attribute, else the return itself"""
+        if o.kind == 'sentinel' and o.last is not None and o.last[0] == 'conc':
+            return o.last[1]
+        for t, _ in reversed(o.tests):
+            if attr is None or any(isinstance(n, ast.Attribute) and n.attr == attr for n in ast.walk(t)):
+                return t
+        return o.ret
+
+    def type_decided(o: _TOutcome) -> bool:
+        """a not-matching return that no branch on the opaque part (parameters) stands in front of"""
+        if o.last is None or o.last[0] == 'conc':
+            return True
+        if tm.reads_type(o.last[1]):
+            raise UnknownIdiom('match_score: %s is decided by the type and by the parameters together in %s' % (
+                short(o.ret, 40), short(o.last[1], 60)))
+        return False
+
+    reported: Set[str] = set()          # constructs already blamed (a violation's identity is the construct, not the clause)
+
+    def verdict(kind: str, what: str, pick, attr: Optional[str], wit: str):
+        """one obligation per (clause, construct): `pick` lists the (cell, outcome) pairs that break the clause"""
+        bad = pick()
+        by_construct: Dict[str, list] = {}
+        nodes = {}
+        for c, o in bad:
+            n = blame(o, attr)
+            by_construct.setdefault(unparse(n), []).append((c, o))
+            nodes[unparse(n)] = n
+        fresh = [k for k in sorted(by_construct) if k not in reported]
+        if not bad:
+            run.ok(what, ms.loc())
+        for k in fresh:
+            reported.add(k)
+            rows = by_construct[k]
+            run.fail(what, ms, nodes[k], where=ms.loc(nodes[k]),
+                     witness=['%s -> %s' % (_cell_text(c), 'not matching' if o.kind == 'sentinel' else 'a real score at %s' % short(o.ret, 60))
+                              for c, o in rows[:6]], runtime_witness=wit)
+
+    for role, attr in enumerate(_T_ATTRS):
+        name = 'main type' if role == 0 else 'subtype'
+
+        def cell_of(s, o, role=role):
+            # the other criterion is held compatible: wildcards when the main type is examined, an equal token otherwise
+            return (s, o, '*', '*') if role == 0 else ('a', 'a', s, o)
+
+        pairs = [(s, o) for s in _T_ATOMS for o in _T_ATOMS]
+        verdict('mismatch-%d' % role,
+                'a %s mismatch (both sides concrete and different) yields the not-matching sentinel on every path' % name,
+                lambda: [(cell_of(s, o), x) for s, o in pairs if not _compatible(s, o) for x in table[cell_of(s, o)] if x.kind == 'score'],
+                attr, 'a range with a different %s still matches' % name)
+        verdict('compatible-%d' % role,
+                'a %s wildcard on EITHER side (range or candidate) or an equal %s is never answered "not matching" because of the %s'
+                % (name, name, name),
+                lambda: [(cell_of(s, o), x) for s, o in pairs if _compatible(s, o) for x in table[cell_of(s, o)]
+                         if x.kind == 'sentinel' and type_decided(x)],
+                attr, _TYPE_WITNESS)
+        for s, o in pairs:
+            if _compatible(s, o) and not any(x.kind == 'score' for x in table[cell_of(s, o)]) \
+                    and not any(x.kind == 'sentinel' and type_decided(x) for x in table[cell_of(s, o)]):
+                raise UnknownIdiom('match_score: %s never reaches a real score' % _cell_text(cell_of(s, o)))
+        # polarity of the component over ALL cells that reach a real score
+        wild: Dict[float, tuple] = {}
+        exact: Dict[float, tuple] = {}
+        for c in cells:
+            pair = (c[0], c[1]) if role == 0 else (c[2], c[3])
+            for x in table[c]:
+                if x.kind != 'score':
+                    continue
+                v = comp_value(x, role)
+                if v is not None:
+                    (wild if '*' in pair else exact).setdefault(v, c)
+        if wild and exact:
+            lower(role, min(list(wild) + list(exact)))
+            w, e = max(wild), min(exact)
+            holder = [n for n in (comp_with_role(x.ret, role) for outs in table.values() for x in outs if x.kind == 'score') if n is not None][0]
+            first = _assignments(ms.node, holder.id)[0][0] if isinstance(holder, ast.Name) and _assignments(ms.node, holder.id) else holder
+            run.check(w < e, 'an exact %s scores above a wildcard match' % name, ms,
+                      '%s: wildcard %s exact %s' % (short(holder, 30), sorted(wild), sorted(exact)), where=ms.loc(first),
+                      witness=['%s -> component %r' % (_cell_text(wild[w]), w), '%s -> component %r' % (_cell_text(exact[e]), e)],
+                      runtime_witness='text/* preferred over text/plain for media type text/plain')
+        elif wild or exact:
+            raise UnknownIdiom('match_score: the %s component is computed only for %s cells' % (name, 'wildcard' if wild else 'exact'))
+
+    # every remaining combination of the two criteria
+    verdict('joint', 'all %d combinations of range / candidate main type and subtype over %s: not matching exactly when a criterion has two '
+            'different concrete tokens' % (len(cells), '/'.join(_T_ATOMS)),
+            lambda: [(c, x) for c in cells if not (_compatible(c[0], c[1]) and _compatible(c[2], c[3])) for x in table[c] if x.kind == 'score'] +
+                    [(c, x) for c in cells if _compatible(c[0], c[1]) and _compatible(c[2], c[3]) for x in table[c]
+                     if x.kind == 'sentinel' and type_decided(x)],
+            None, _TYPE_WITNESS)
+    run.extra['c11_type_model'] = {'cells': len(cells), 'outcomes': sum(len(v) for v in table.values())}
+
+
 def r1_score_order(run):
     p = run.project
     ms = p.func(MEDIATYPES + '._MediaRange.match_score')
@@ -930,20 +1373,11 @@ def r1_score_order(run):
     def lower(role, v):
         mins[role] = v if role not in mins else min(mins[role], v)
 
+    # main type / subtype: which pairs match at all and how the two leading components rank them is decided by
+    # interpreting match_score() on the finite type domain (replaces the former shape-bound reading of the if-ladders)
+    _type_table(run, ms, roles, other, comp_with_role, lower)
+
     for ret in real:
-        for role in (0, 1):
-            e = comp_with_role(ret, role)
-            if e is None or (role, unparse(e)) in done:
-                continue
-            done.add((role, unparse(e)))
-            if not isinstance(e, ast.Name):
-                raise UnknownIdiom('match_score: %s component is %s' % (ROLE_DOC[role], short(e, 40)))
-            wild, exact = _wild_exact_values(roles, e.id)
-            lower(role, min(wild + exact))
-            run.check(max(wild) < min(exact), 'an exact %s scores above a wildcard match' % ('main type' if role == 0 else 'subtype'),
-                      ms, '%s: wildcard %s exact %s' % (e.id, sorted(set(wild)), sorted(set(exact))),
-                      where=ms.loc(_assignments(ms.node, e.id)[0][0]),
-                      runtime_witness='text/* preferred over text/plain for media type text/plain')
         e = comp_with_role(ret, 2)
         if e is not None:
             try:
@@ -1033,7 +1467,7 @@ def r1_score_order(run):
             return False
         return atom
 
-    for kind in ('main_type', 'subtype', 'params'):
+    for kind in ('params',):                  # main type / subtype mismatches: decided cell by cell in _type_table()
         atom = cmp_atom(kind)
         n_edges = 0
         for n in cfg.live_nodes():
